@@ -8,7 +8,7 @@ from vt import boot
 
 boot.init()
 
-from tartiflette import Engine, Resolver, Scalar, Subscription, TypeResolver  # noqa: E402
+from tartiflette import Directive, Engine, Resolver, Scalar, Subscription, TypeResolver  # noqa: E402
 
 from vt import smodel  # noqa: E402
 from vt.world import meta_of  # noqa: E402
@@ -84,6 +84,25 @@ async def _default_resolver(parent, args, ctx, info):
     return await ctx["world"].default_resolve(parent, args, ctx, info)
 
 
+class GateDirective:
+    """@vtgate: a suspension point (scheduler gate) in field execution and argument coercion."""
+
+    async def on_field_execution(self, directive_args, next_resolver, parent, args, ctx, info):
+        w = ctx["world"]
+        if w.sched is not None:
+            await w.sched.gate("f:" + "/".join(map(str, info.path.as_list())))
+        return await next_resolver(parent, args, ctx, info)
+
+    async def on_argument_execution(self, directive_args, next_directive, parent_node, argument_definition_node,
+                                    argument_node, value, ctx):
+        w = ctx["world"]
+        if w.sched is not None:
+            loc = parent_node.location
+            await w.sched.gate("a:%s.%s@%s:%s" % (parent_node.name.value, argument_definition_node.name.value,
+                                                  loc.line, loc.column), multi=True)
+        return await next_directive(parent_node, argument_definition_node, argument_node, value, ctx)
+
+
 class Bundle:
     """One cooked engine for one schema model."""
 
@@ -96,6 +115,8 @@ class Bundle:
 
     def register(self):
         s, sn = self.s, self.name
+        if "vtgate" in s.directives:
+            Directive("vtgate", schema_name=sn)(GateDirective())
         for t in s.types.values():
             if t.kind == "SCALAR":
                 Scalar(t.name, schema_name=sn)(EvenScalar() if t.impl == "even" else TagScalar())
